@@ -161,5 +161,16 @@ func tryDecodingAPIError(resp *http.Response) error {
 		return APIError{Status: "error", ErrorType: v1.ErrBadResponse, Err: resp.Status}
 	}
 
-	return APIError{Status: status, ErrorType: decodeErrorType(errType), Err: errText}
+	et := decodeErrorType(errType)
+	if resp.StatusCode/100 == 5 && errType != "" {
+		// A 5xx response means the server is in trouble whatever name it gives to the error
+		// (Prometheus itself uses "internal" with 500 and "unavailable" with 503), unless the
+		// body clearly blames the query.
+		switch et {
+		case v1.ErrBadData, v1.ErrExec, v1.ErrTimeout, v1.ErrCanceled:
+		default:
+			et = v1.ErrServer
+		}
+	}
+	return APIError{Status: status, ErrorType: et, Err: errText}
 }
